@@ -1,6 +1,7 @@
 // @id C14.copy_use_saver
 // @engine B
 // @entry vfh_C14_copy_use_saver
+// @shared_state_watch
 // @tier Q
 // @reach copy_use.saved
 // @funcs Phreeqc::copy_use; Phreeqc::saver; Utilities::Rxn_copy; Utilities::Rxn_copies
